@@ -86,8 +86,19 @@ func (pr *Program) callFunText(pos token.Pos) string {
 	}
 	path, _ := astutil.PathEnclosingInterval(f, pos, pos)
 	for _, n := range path {
-		if c, ok := n.(*ast.CallExpr); ok && c.Lparen == pos {
-			return pr.nodeText(c.Fun, src)
+		switch c := n.(type) {
+		case *ast.CallExpr:
+			if c.Lparen == pos {
+				return pr.nodeText(c.Fun, src)
+			}
+		case *ast.DeferStmt:
+			if c.Defer == pos {
+				return pr.nodeText(c.Call.Fun, src)
+			}
+		case *ast.GoStmt:
+			if c.Go == pos {
+				return pr.nodeText(c.Call.Fun, src)
+			}
 		}
 	}
 	return ""
@@ -157,7 +168,17 @@ func (ex *Exec) verifyFunction(fn *ssa.Function, con *Contract) (rep *FuncReport
 		// field or element address
 		if p, ok := bindings[len(bindings)-1].(*Term); ok && p.Sort == SPtr {
 			ex.fact(nil, P.mk("(_ is obj)", "", SBool, []*Term{p}, nil))
+			// ... and no callee can reach it: it survives the havoc of calls
+			ex.private = append(ex.private, privCell{p, elemOfPtr(fv.Type())})
+			ex.assumed["variables captured by a closure are reachable only from the closure and its enclosing function (calls made by the closure do not modify them)"] = true
 		}
+	}
+	// every pointer held by the heap on entry refers to an object that existed before this call
+	{
+		q := BoundVar("hp0", SPtr)
+		h0 := st.heap.array("H_Ptr", arrSort(SPtr, SPtr))
+		isNew := func(r *Term) *Term { return P.mk("(_ is new)", "", SBool, []*Term{r}, nil) }
+		ex.fact(nil, Forall([]*Term{q}, Not(underPred(Select(h0, q), isNew, 2))))
 	}
 	fr := ex.newFrame(fn, args, bindings, nil)
 	fr.top = true
@@ -208,15 +229,29 @@ func (ex *Exec) verifyFunction(fn *ssa.Function, con *Contract) (rep *FuncReport
 	for _, cl := range con.Ensures {
 		var parts []*Term
 		for _, r := range fr.rets {
+			fr.capsOverride = r.caps
 			env := mkEnv(r.st, r.vals)
+			fr.capsOverride = nil
 			parts = append(parts, Implies(r.st.reach, env.evalBool(cl.Text)))
 		}
 		top := &State{reach: True()}
 		ex.oblige(fr, top, "ensures", cl.Label, And(parts...), token.NoPos, cl.Text)
 	}
 	env := mkEnv(res.st, res.vals)
-	if con.HasMod || con.Pure {
+	if con.TrustedFrame {
+		ex.assumed["frame (modifies clause) of "+fr.label+" is assumed, not checked on its body"] = true
+	} else if con.HasMod || con.Pure {
 		ex.frameCheck(fr, con, res.st, env)
+	}
+	for k := range con.Loops {
+		if k >= len(fr.li.heads) {
+			ex.oblige(fr, res.st, "binding", fmt.Sprintf("loop%d", k), False(), token.NoPos, fmt.Sprintf("contract has clauses for loop %d but the function has %d loop(s)", k, len(fr.li.heads)))
+		}
+	}
+	for _, cp := range con.Captures {
+		if ex.findCaptureSite(fn, cp) == nil {
+			ex.oblige(fr, res.st, "binding", "capture "+cp.Name, False(), token.NoPos, fmt.Sprintf("capture %s = call(%s, %d) matches no call site", cp.Name, cp.Callee, cp.Ord))
+		}
 	}
 	for _, cl := range con.Asserts {
 		if !fr.assertsDone[cl] {
@@ -365,7 +400,10 @@ func (ex *Exec) frameObligations(fr *Frame, kind string, entry, fin *State, modC
 				}
 			case "elems":
 				if !isMapArr {
-					allowed = append(allowed, rootedAtElem(p, m.addr))
+					arr := m.addr
+					allowed = append(allowed, underPred(p, func(q *Term) *Term {
+						return And(P.mk("(_ is elt)", "", SBool, []*Term{q}, nil), Eq(P.mk("ebase", "", SPtr, []*Term{q}, nil), arr))
+					}, 5))
 				}
 			case "loc":
 				if !isMapArr {
